@@ -31,7 +31,7 @@ def analysisVerdict (spec : Json → Json → String) (inp impl : Json) : Verdic
       ((relNames.map (fun rn => (relTables.filter (·.name == rn)).any (fun t2 => t2.cols.any (·.name == col.name)))).filter id).length > 1))
   -- the column length (MySQL tinyint(1) = bool) is not copied into result columns / parameters
   let lenDrop := relTables.any (fun t => t.cols.any (fun col => col.tname == "tinyint" && col.length == some 1))
-  { model := run.model, compare := !walkPanic, frag := if walkPanic then "out:walk-panic" else "in",
+  { model := run.model, compare := !walkPanic && !reparseRejected impl, frag := if walkPanic then "out:walk-panic" else if reparseRejected impl then "out:reparse-rejected" else "in",
     specImpl := spec inp impl,
     trig := run.trig ++ (if ml then ["scopeLeak"] else []) ++ (if repeated then ["repeatedPlaceholder"] else []) ++
       (if exprCol then ["exprColumn"] else []) ++ (if needsQ then ["needsQuoting"] else []) ++
